@@ -95,11 +95,12 @@ func stmtDescriptors(fn *ssa.Function) []string {
 }
 
 type siblingMember struct {
-	pkg  string
-	key  string // function key inside the family (group-normalised)
-	fn   *ssa.Function
-	desc []string
-	hash string
+	generated bool // defined in a file carrying the "Code generated ... DO NOT EDIT" header
+	pkg       string
+	key       string // function key inside the family (group-normalised)
+	fn        *ssa.Function
+	desc      []string
+	hash      string
 }
 
 type siblingIndex struct {
@@ -140,7 +141,7 @@ func siblingIndexOf(p *Program) *siblingIndex {
 		name = reGroup.ReplaceAllString(name, "${1}N$2")
 		d := stmtDescriptors(fn)
 		h := sha256.Sum256([]byte(strings.Join(d, "\n")))
-		m := &siblingMember{pkg: pk, key: name, fn: fn, desc: d, hash: fmt.Sprintf("%x", h[:8])}
+		m := &siblingMember{pkg: pk, key: name, fn: fn, desc: d, hash: fmt.Sprintf("%x", h[:8]), generated: inGeneratedFile(p, fn)}
 		if idx.fams[fam] == nil {
 			idx.fams[fam] = map[string][]*siblingMember{}
 		}
@@ -210,6 +211,11 @@ func SiblingCheck(c *Ctx, p *Program, rule string, famPatterns []string, nameFil
 				}
 				// a deviating group of more than one member is a template variant, not a slip
 				if len(groups[m.hash]) > 1 {
+					continue
+				}
+				// hand-written files take part in the comparison but are free to differ: the rule is
+				// "a generated file is an instantiation of its template", not "all code looks alike"
+				if !m.generated {
 					continue
 				}
 				missing, extra := multisetDiff(major[0].desc, m.desc)
@@ -367,4 +373,41 @@ func blockContexts(fn *ssa.Function) []string {
 		}
 	}
 	return out
+}
+
+var genFileMemo sync.Map
+
+// inGeneratedFile: does the file defining fn carry the generated-code header?
+func inGeneratedFile(p *Program, fn *ssa.Function) bool {
+	root := fn
+	for root.Parent() != nil {
+		root = root.Parent()
+	}
+	pos := root.Pos()
+	if !pos.IsValid() {
+		return false
+	}
+	file := p.Fset.Position(pos).Filename
+	if v, ok := genFileMemo.Load(file); ok {
+		return v.(bool)
+	}
+	gen := false
+	if pkg := p.ByPath[fnPkgPath(root)]; pkg != nil {
+		for _, f := range pkg.Syntax {
+			if p.Fset.Position(f.Pos()).Filename != file {
+				continue
+			}
+			for _, cg := range f.Comments {
+				if cg.Pos() > f.Package {
+					break
+				}
+				t := cg.Text()
+				if strings.Contains(t, "Code generated") && strings.Contains(t, "DO NOT EDIT") {
+					gen = true
+				}
+			}
+		}
+	}
+	genFileMemo.Store(file, gen)
+	return gen
 }
